@@ -83,6 +83,18 @@ fn main() {
             }
         }
     }
+    // a may-be-uninitialised datum of a non-Copy type next to a mandatory datum of the same type (either order, first or later variant)
+    for (ty, size, align, copy) in [TYPES[8], TYPES[9], TYPES[10], TYPES[2]] {
+        for (flagged_first, later) in [(true, false), (false, false), (true, true), (false, true)] {
+            let v = if later { 1 } else { 0 };
+            let plain = (v, ty, size, align, false);
+            let flagged = (v, ty, size, align, true);
+            let mut fields = vec![(0usize, "P2", 2usize, 2usize, true)];
+            if flagged_first { fields.push(flagged); fields.push(plain); } else { fields.push(plain); fields.push(flagged); }
+            let (text, req) = build(&fields, if later { 2 } else { 1 });
+            probes.push(Probe { kind: if copy { "ok".into() } else { "copy".into() }, desc: format!("two {} data in variant {}, the {} one may stay uninitialised ({})", ty, v, if flagged_first { "first" } else { "second" }, if copy { "Copy: accepted" } else { "not Copy: must be refused" }), req, text, tail: String::new() });
+        }
+    }
     // two data of the same type, one of them recorded wrongly (the other correctly): both must be guarded
     for (ty, size, align, _) in [TYPES[2], TYPES[3], TYPES[8], TYPES[6]] {
         for (wrong_first, later) in [(true, false), (false, false), (true, true), (false, true)] {
